@@ -196,18 +196,16 @@ def features_of(text):
     return f
 
 
-def shrink_blocks(blocks, failing, budget=250):
-    """greedy delta debugging over blocks, then over single lines inside blocks (doc lines, members);
-    `failing(blocks)` -> bool.  Returns (shrunk blocks, number of evaluations)."""
-    n_eval = 0
-    cur = [list(b) for b in blocks]
+def ddmin(items, test, budget):
+    """greedy chunked deletion: returns (smaller list on which `test` still holds, evaluations used)"""
+    cur, n_eval = list(items), 0
     chunk = max(1, len(cur) // 2)
-    while n_eval < budget:
+    while n_eval < budget and cur:
         i, changed = 0, False
         while i < len(cur) and n_eval < budget:
             cand = cur[:i] + cur[i + chunk:]
             n_eval += 1
-            if cand and failing(cand):
+            if test(cand):
                 cur, changed = cand, True
             else:
                 i += chunk
@@ -215,16 +213,23 @@ def shrink_blocks(blocks, failing, budget=250):
             chunk //= 2
         elif not changed:
             break
-    for bi in range(len(cur)):
-        li = 0
-        while li < len(cur[bi]) and n_eval < budget:
-            if len(cur[bi]) == 1: break
-            cand = [list(b) for b in cur]
-            del cand[bi][li]
-            n_eval += 1
-            if failing(cand): cur = cand
-            else: li += 1
-    return [b for b in cur if b], n_eval
+    return cur, n_eval
+
+
+def shrink_blocks(blocks, failing, budget=250):
+    """delta debugging over blocks, then over the lines inside each remaining block (doc lines, members);
+    `failing(blocks)` -> bool.  Returns (shrunk blocks, number of evaluations)."""
+    cur, used = ddmin([list(b) for b in blocks], lambda cand: bool(cand) and failing(cand), budget)
+    for bi in sorted(range(len(cur)), key=lambda k: -len(cur[k])):
+        if used >= budget: break
+        if len(cur[bi]) < 2: continue
+        def test(lines, bi=bi):
+            if not lines: return False
+            cand = [list(b) for b in cur]; cand[bi] = lines
+            return failing(cand)
+        cur[bi], n = ddmin(cur[bi], test, budget - used)
+        used += n
+    return [b for b in cur if b], used
 
 
 if __name__ == "__main__":
